@@ -1,10 +1,12 @@
 ------------------------------- MODULE ItsStave -------------------------------
 (* `check all its-stave`: the ITS checker plus readout-frame collection and     *)
-(* ALPIDE frame rules.  Panics of the pinned code are modelled explicitly       *)
-(* (result field `panic`) so that the rest of a trace can still be validated.   *)
+(* ALPIDE frame rules.  The result field `panic` predicted the aborts of the    *)
+(* pinned code (findings 4-7); since their repair nothing aborts and it is      *)
+(* constantly FALSE - it is kept so that an abort in a recorded run is rejected. *)
 EXTENDS ItsChecker, Alpide
 
-BarrelOf(fee) == LET ly == Layer(fee) IN IF ly <= 2 THEN "IB" ELSE IF ly <= 4 THEN "ML" ELSE IF ly <= 6 THEN "OL" ELSE "BAD"
+\* layer 7 does not exist (RDH sanity reports it); the stave rules treat it as an outer layer
+BarrelOf(fee) == LET ly == Layer(fee) IN IF ly <= 2 THEN "IB" ELSE IF ly <= 4 THEN "ML" ELSE "OL"
 FrInit == [barrel |-> "NONE", inFrame |-> FALSE, has |-> FALSE, start |-> 0, lanes |-> << >>, fatal |-> << >>]
 StaveInit == [ck |-> LinkInit, fr |-> FrInit]
 
@@ -23,19 +25,18 @@ FrameResult(fr, barrel) ==
    LET ib == barrel = "IB"
        n == Len(fr.lanes)
        verdicts == [i \in 1..n |-> LaneVerdictD(fr.lanes[i].d, ib, LaneNo(barrel, fr.lanes[i].id))]
-       lanePanic == \E i \in 1..n : verdicts[i].v = "panic"
        anyErr == \E i \in 1..n : verdicts[i].v = "err"
        okBcs == {verdicts[i].bc : i \in {j \in 1..n : verdicts[j].v = "ok"}}
        bcMismatch == Cardinality(okBcs) > 1
        newFatal == SelectSeq([i \in 1..n |-> IF verdicts[i].v = "fatal" THEN LaneNo(barrel, fr.lanes[i].id) ELSE 999], LAMBDA x : x # 999)
        fatal == fr.fatal \o newFatal
-       countOk == Len(fatal) <= ExpectLanes(barrel) /\ n = ExpectLanes(barrel) - Len(fatal)
+       expect == IF Len(fatal) <= ExpectLanes(barrel) THEN ExpectLanes(barrel) - Len(fatal) ELSE 0      \* saturating
+       countOk == n = expect
        laneNos == {IbLane(fr.lanes[i].id) : i \in 1..n}
-       groupPanic == ib /\ countOk /\ \E f \in SeqToSet(fatal) : f > 8
        groupOk == \E grp \in IbGroups : laneNos = grp \ SeqToSet(fatal)
        code1 == IF ib THEN "72" ELSE "73"
        code2 == IF ib THEN "74" ELSE "75"
-   IN [panic |-> lanePanic \/ groupPanic,
+   IN [panic |-> FALSE,
        fatal |-> fatal,
        errs |-> If(~countOk \/ (ib /\ ~groupOk), E(fr.start, code1)) \o If(anyErr \/ bcMismatch, E(fr.start, code2))]
 
@@ -53,7 +54,7 @@ CheckWordS(ss, r, sod, w, off) ==
           errs |-> base.errs, sod |-> base.sod, panic |-> FALSE]
       ELSE IF stored THEN
          [st |-> [ck |-> base.st, fr |-> IF fr.has THEN [fr EXCEPT !.lanes = StoreLane(@, w)] ELSE fr],
-          errs |-> base.errs, sod |-> base.sod, panic |-> ~fr.has]
+          errs |-> base.errs, sod |-> base.sod, panic |-> FALSE]          \* a data word outside a frame is not stored
       ELSE IF asTdt /\ TdtPacketDone(w) = 1 THEN
          IF ~fr.has THEN [st |-> [ck |-> base.st, fr |-> [fr EXCEPT !.inFrame = FALSE]], errs |-> base.errs \o E(off, "59"), sod |-> base.sod, panic |-> FALSE]
          ELSE IF fr.lanes = << >> THEN
@@ -80,8 +81,7 @@ CheckPacketS(ss, pktOff, r, payload) ==
        barrel == IF ss.fr.barrel = "NONE" THEN BarrelOf(FeeId(r)) ELSE ss.fr.barrel
        ss1 == [ck |-> st1, fr |-> [ss.fr EXCEPT !.barrel = barrel]]
    IN IF payload = << >> THEN [st |-> [ck |-> st1, fr |-> ss.fr], errs |-> sane \o runE, panic |-> FALSE]
-      ELSE IF barrel = "BAD" THEN [st |-> ss1, errs |-> sane \o runE, panic |-> TRUE]
       ELSE IF PadErr(payload) THEN [st |-> [ss1 EXCEPT !.ck.fsm = InitState], errs |-> sane \o runE \o E(pktOff, "PAYLOAD"), panic |-> FALSE]
-      ELSE LET res == CheckWordsS(ss1, r, TRUE, Cut(payload), 1, pktOff)
+      ELSE LET res == CheckWordsS(ss1, r, TRUE, Cut(DataFormat(r), payload), 1, pktOff)
            IN [st |-> res.st, errs |-> sane \o runE \o res.errs, panic |-> res.panic]
 ===============================================================================
